@@ -1101,7 +1101,21 @@ class Chunk(Pipeline):
         if [FS, AS, RS] != ["feat", "ali", "ref"]:
             a += ["--feat-subdir", FS, "--ali-subdir", AS, "--ref-subdir", RS]
         o = run_command("chunk_torch_spect_data_dir", a)
-        out = {"status": status_of([o]), "snap": {"out": snapshot(s.p("out"))}, "outcomes": [o], "validated": None}
+        out = {"status": status_of([o]), "snap": {"out": snapshot(s.p("out"))}, "outcomes": [o], "validated": None, "iso": None}
+        if cfg.workers == 0 and len(sc["utts"]) >= 2 and o.exc is None and not o.rc:
+            # isolation: what is chunked out of one utterance must not depend on its neighbours
+            k = sc["salt"] % len(sc["utts"])
+            u = sc["utts"][k]
+            import shutil
+
+            for sd in (FS, AS, RS):
+                src = s.p("in", sd, fname(sc, u["id"]))
+                if os.path.exists(src):
+                    os.makedirs(s.p("iso_in", sd), exist_ok=True)
+                    shutil.copy(src, s.p("iso_in", sd, fname(sc, u["id"])))
+            a_iso = [s.p("iso_in"), s.p("iso_out")] + a[2:]
+            o_iso = run_command("chunk_torch_spect_data_dir", a_iso)
+            out["iso"] = {"utt": u["id"], "status": o_iso.status(), "snap": snapshot(s.p("iso_out"))}
         if o.exc is None and not o.rc and cfg.workers == 0 and os.path.isdir(s.p("out", FS)):
             from pydrobert.torch import data
             import warnings
@@ -1207,6 +1221,14 @@ class Chunk(Pipeline):
                     else:
                         res.violate("chunk.token-boundaries", f"chunk {cid}: token boundaries {got_r}, expected offsets from the slice start: {want}", pipeline=P, what="boundaries", sign_flipped=False)
                         return
+        iso = out.get("iso")
+        if iso and iso["status"] == ("rc", 0):
+            mine = {rel: d for rel, d in snap.items() if rel.split("/", 1)[1].startswith(sc["prefix"] + iso["utt"] + ".")
+                    and rel.split("/", 1)[1][len(sc["prefix"]) + len(iso["utt"]) + 1:].split(".")[0].lstrip("-").isdigit()}
+            if mine != iso["snap"]:
+                res.violate("chunk.isolation", f"the chunks of utterance {iso['utt']} differ when it is chunked alone ({len(iso['snap'])} files) and together with the others ({len(mine)} files)",
+                            pipeline=P, what=sc["policy"])
+                return
         if sc.get("idx_names"):
             for uid, ixs in indices.items():
                 if sorted(ixs) != list(range(len(ixs))):
